@@ -356,9 +356,12 @@ def gen_enc_value(m, enc, rng):
     raise ModelError("value of " + enc.kind)
 
 
-def gen_values(m, level, rng, max_group=3, max_data=9, depth=0, inflate=False, force=False):
+def gen_values(m, level, rng, max_group=3, max_data=9, depth=0, inflate=False, force=False, big_data=None):
     """force: every group gets at least one entry, every data member at least one byte and (with inflate)
-    every level a non-zero extra block length -- the image that reaches every construct of the message."""
+    every level a non-zero extra block length -- the image that reaches every construct of the message.
+    big_data: a one-element list used as a budget; while it holds a positive number, a <data> member whose length type
+    is 8 or 16 bits wide gets the largest valid SBE length of that type (254 / 65534 bytes: where `prefix + length`
+    no longer fits the length type) and the budget is decremented."""
     v = Values()
     for f, off in m.level_layout(level)[0]:
         if off is None:
@@ -374,7 +377,7 @@ def gen_values(m, level, rng, max_group=3, max_data=9, depth=0, inflate=False, f
         dim = m.dimension(g)
         num_prim = m.header_member(dim, "numInGroup")[1]
         n = min(n, 2 ** (8 * PRIM_SIZE[num_prim]) - 1)
-        entries = [gen_values(m, g, rng, max_group, max_data, depth + 1, inflate, force) for _ in range(n)]
+        entries = [gen_values(m, g, rng, max_group, max_data, depth + 1, inflate, force, big_data) for _ in range(n)]
         if inflate:
             # all entries of one group occurrence share the wire block length
             ex = rng.choice([1, 3, 17]) if force else rng.choice([0, 0, 1, 3, 17])
@@ -391,6 +394,9 @@ def gen_values(m, level, rng, max_group=3, max_data=9, depth=0, inflate=False, f
         if force:
             n = rng.choice([1, 2, max_data])
         n = min(n, 2 ** (8 * PRIM_SIZE[lp]) - 1)
+        if big_data and big_data[0] > 0 and PRIM_SIZE[lp] <= 2:
+            big_data[0] -= 1
+            n = 2 ** (8 * PRIM_SIZE[lp]) - 2
         v.data[d.name] = bytes(rng.getrandbits(8) for _ in range(n))
     return v
 
